@@ -13,6 +13,7 @@ from .. import kalg
 from ..symexec import Interp, Samples, is_arr
 from ..kalg import OutOfFragment, sym
 from . import c05
+from . import c09
 
 META = {
     "level": "other",
@@ -33,7 +34,7 @@ META = {
 }
 
 TUS = ["src/loss.cpp", "src/loss/pinball.cpp", "src/function.cpp", "src/function/constraint.cpp", "src/linear/function.cpp",
-       "src/function/penalty.cpp"]
+       "src/function/penalty.cpp", "src/gboost/function.cpp", "src/linear/util.cpp", "src/linear/accumulator.cpp"]
 N = 3
 
 
@@ -612,5 +613,9 @@ def run(ctx):
     c05.rule_constraint_gradients(F, R)
     rule_strong_convexity(F, R, fns)
     rule_decision(F, R)
+    # the ML objectives' own terms: regulariser value / gradient pair of the linear objective, gboost's gradient objective (= R-C09-4)
+    c09.rule_regularisers(F, R, rule="R-C06-8")
+    c09.rule_linear_chain(F, R, rule="R-C06-8")
+    c09.rule_sample_axis(F, R, rule="R-C06-8")
     nb = rule_benchmarks(F, R, fns)
     R.floor("R-C06-2/benchmarks", nb, 6, "benchmark functions inside the fragment")
